@@ -588,7 +588,14 @@ def gen_kernels():
     rs2v_kernels.gen_kernels(REPO, STATUS, write_if_changed)
 
 
-GENERATORS = [gen_deblock, gen_yuv, gen_tables, gen_inventory, gen_kernels]
+def gen_parser():
+    """picture-header field decoders translated from Rust source (tools/rs2v_parser.py)"""
+    sys.path.insert(0, HERE)
+    import rs2v_parser
+    rs2v_parser.gen_parser(REPO, STATUS, write_if_changed)
+
+
+GENERATORS = [gen_deblock, gen_yuv, gen_tables, gen_inventory, gen_kernels, gen_parser]
 
 
 def main():
